@@ -415,12 +415,18 @@ def get_intersecting_triangles(vertices, triangles, r=None, r_factor=2.0, eps=1e
     if r_factor < 1:  # pragma: no cover
         raise ValueError("r_factor must be greater or equal to 1")
 
-    vertices = vertices.astype(np.float32)
+    # work in a frame where the mesh has unit size and starts at the origin, so that the
+    # float32 resolution and the tolerance `eps` are relative to the size of the mesh
+    vmin = np.min(vertices, axis=0)
+    size = np.max(np.max(vertices, axis=0) - vmin)
+    vertices = ((vertices - vmin) / size).astype(np.float32)
     facets = vertices[triangles]
     centers = np.mean(facets, axis=1)
 
     if r is None:
         r = r_factor * np.sqrt(((facets - centers[:, None, :]) ** 2).sum(-1)).max()
+    else:
+        r = r / size
 
     kdtree = scipy.spatial.KDTree(centers)
     near = kdtree.query_ball_point(centers, r, return_sorted=False, workers=-1)
